@@ -4,7 +4,7 @@
 From Coq Require Import ZArith NArith List Bool Arith Lia.
 From GV Require Import Base.Result Base.Host Gen.Instr Model.Num Model.Value Model.Machine
   Model.CompileExpr Model.CompileWL Spec.Ast Spec.Printer Spec.Eval Spec.Fragment
-  Proofs.C01.Labels Proofs.C01.Stages Proofs.C01.Main Proofs.C01.Bounded.
+  Proofs.C01.Labels Proofs.C01.Stages Proofs.C01.Main Proofs.C01.Bounded Proofs.C01.Witness.
 Import ListNotations.
 
 Lemma efrag_mono lvl lvl' : lvl <= lvl' -> forall e, efrag lvl e = true -> efrag lvl' e = true.
@@ -65,9 +65,33 @@ Example frag_e2e_excludes :
   frag_e2e (ENested 1 (ESeq Semi EValue EValue)) = false /\
   frag_e2e (ESide EValue (ELit (LInt 1))) = false /\
   frag_e2e (ESeq Semi EValue EValue) = false /\
-  frag_e2e (EReapply EValue) = false.
+  frag_e2e (EReapply (ESide EValue (ELit (LInt 1)))) = false.
 Proof. repeat split; reflexivity. Qed.
 
 (* the agreement the theorem asserts, observed on the member above *)
 Example demo_e2e_agrees : agrees demo_e2e = true.
 Proof. vm_compute. reflexivity. Qed.
+
+(*  2 ~> { $ + 1 } ~> { $ * 3 }   : two functions, one applied to the result of the other *)
+Definition demo_apply2 : expr :=
+  EBin BApplyTo
+    (EBin BApplyTo (ELit (LInt 2)) (ENested 2 (EBin BAdd EValue (ELit (LInt 1)))))
+    (ENested 1 (EBin BMul EValue (ELit (LInt 3)))).
+
+Example demo_apply2_ok :
+  frag_e2e demo_apply2 = true /\ printable demo_apply2 = true /\ known_K1 demo_apply2 = false /\
+  known_K2 demo_apply2 = false /\ labels_ok demo_apply2 = true /\
+  eval_prog sh unit nohost 20 demo_apply2 VUnit tt = ODone (VNum (Int 9)) (tt, []).
+Proof. vm_compute. repeat split; reflexivity. Qed.
+
+(*  { $ < 3 ?> ^~ $ + 1 |> $ } <~ 0   : a loop: the body restarts itself with $ + 1 until $ = 3 *)
+Definition demo_loop : expr :=
+  EBin BApply
+    (ENested 1 (EElse (ECond false (EBin BLt EValue (ELit (LInt 3))) (EReapply (EBin BAdd EValue (ELit (LInt 1))))) EValue))
+    (ELit (LInt 0)).
+
+Example demo_loop_ok :
+  frag_e2e demo_loop = true /\ printable demo_loop = true /\ known_K1 demo_loop = false /\
+  known_K2 demo_loop = false /\ labels_ok demo_loop = true /\
+  eval_prog sh unit nohost 40 demo_loop VUnit tt = ODone (VNum (Int 3)) (tt, []).
+Proof. vm_compute. repeat split; reflexivity. Qed.
